@@ -1,4 +1,5 @@
 import PyaisVerif.Lemmas.RoundTrip
+import PyaisVerif.Lemmas.Prefix
 import PyaisVerif.Properties.C01
 import PyaisVerif.Properties.C04
 import PyaisVerif.Properties.C08
@@ -6,9 +7,10 @@ import PyaisVerif.Properties.C09
 /-!
 # C02 — encode then decode returns the message that was encoded
 
-Built on C01 (the class a payload selects and the table-driven decode), C08 (re-encoding a decoded
-message is bit exact when nothing was normalised), C09 (the emitted sentences carry exactly the
-bits) and C04 (one-shot decoding sees only the payload).
+Built on C01 (the class a payload selects and the table-driven decode), C08 (decoding, re-encoding
+and decoding again is the identity on the decoded message), the prefix theorem (re-encoding keeps the
+bits that select the class), C09 (the emitted sentences carry exactly the bits) and C04 (one-shot
+decoding sees only the payload).
 -/
 namespace C02
 open Model Spec Py
@@ -17,63 +19,190 @@ abbrev K : NmeaConsts := { maxFragCnt := Generated.MAX_FRAG_CNT, maxPayloadLen :
 abbrev env := Generated.env
 abbrev MAXLEN := Generated.ENCODE_MAX_LEN
 
+/-- how many leading bits of a payload select its class: the type id, and for the multi-layout types
+the discriminator bits -/
+def sel140 : List String := ["MessageType22Addressed", "MessageType22Broadcast"]
+def sel40 : List String := ["MessageType24PartA", "MessageType24PartB",
+  "MessageType25AddressedStructured", "MessageType25AddressedUnstructured",
+  "MessageType25BroadcastStructured", "MessageType25BroadcastUnstructured",
+  "MessageType26AddressedStructured", "MessageType26AddressedUnstructured",
+  "MessageType26BroadcastStructured", "MessageType26BroadcastUnstructured"]
+
+def selLen (cls : String) : Nat :=
+  if sel140.contains cls then 140 else if sel40.contains cls then 40 else 6
+
+theorem selLen_ge (cls : String) : 6 ≤ selLen cls := by
+  unfold selLen
+  by_cases h1 : sel140.contains cls = true
+  · rw [if_pos h1]; omega
+  · rw [if_neg h1]
+    by_cases h2 : sel40.contains cls = true
+    · rw [if_pos h2]; omega
+    · rw [if_neg h2]; omega
+
+/-- number of fields of a table that start before bit `n` -/
+def selFields (fs : List Field) (n : Nat) : Nat :=
+  ((offsetsFrom 0 fs).takeWhile fun p => decide (p.2 < n)).length
+
+/-- in every table of the source the fields in front of and including the discriminator bits are
+never normalised by decoding (unsigned integers, flags, spare bits, scaled coordinates) and end
+exactly at bit `selLen` -/
+theorem prefix_tables :
+    (Generated.classes.all fun (c, fs) =>
+      ((fs.take (selFields fs (selLen c))).all (prefixField C08.E)) &&
+      (widthSum (fs.take (selFields fs (selLen c))) == selLen c)) = true := by decide +kernel
+
+theorem take_of_take {α} (l₁ l₂ : List α) (n m : Nat) (h : l₁.take n = l₂.take n) (hm : m ≤ n) :
+    l₁.take m = l₂.take m := by
+  have := congrArg (List.take m) h
+  rwa [List.take_take, List.take_take, Nat.min_eq_left hm] at this
+
+theorem slice_of_take {α} (l₁ l₂ : List α) (n i k : Nat) (h : l₁.take n = l₂.take n) (hik : i + k ≤ n) :
+    (l₁.drop i).take k = (l₂.drop i).take k := by
+  have h' := take_of_take l₁ l₂ n (i + k) h hik
+  have := congrArg (List.drop i) h'
+  rw [List.drop_take, List.drop_take] at this
+  simpa using this
+
+/-- `select` only looks at the first `selLen` bits -/
+theorem select_congr (b1 b2 : Bits) (cls : String) (hsel : select b1 = .ok cls)
+    (h : b1.take (selLen cls) = b2.take (selLen cls)) : select b2 = .ok cls := by
+  have hge : 6 ≤ selLen cls := selLen_ge cls
+  have h6 := take_of_take b1 b2 _ 6 h hge
+  have hbit : ∀ i k, i + k ≤ selLen cls → (b1.drop i).take k = (b2.drop i).take k :=
+    fun i k hik => slice_of_take b1 b2 _ i k h hik
+  have hbitAt : ∀ i, i + 1 ≤ selLen cls → bitAt b2 i = bitAt b1 i := by
+    intro i hi
+    unfold bitAt
+    rw [hbit i 1 hi]
+  unfold select at hsel ⊢
+  rw [← h6]
+  generalize toNat (b1.take 6) = t at hsel ⊢
+  by_cases h0 : t = 0
+  · simp only [h0, if_true] at hsel ⊢; exact hsel
+  simp only [h0, if_false] at hsel ⊢
+  by_cases h22 : t = 22
+  · simp only [h22, if_true] at hsel ⊢
+    have hl : selLen cls = 140 := by
+      split at hsel <;> (injection hsel with hsel; subst hsel; decide)
+    rw [hbitAt 139 (by omega)]
+    exact hsel
+  simp only [h22, if_false] at hsel ⊢
+  by_cases h24 : t = 24
+  · simp only [h24, if_true] at hsel ⊢
+    have hl : selLen cls = 40 := by
+      split at hsel
+      · injection hsel with hsel; subst hsel; decide
+      · split at hsel
+        · injection hsel with hsel; subst hsel; decide
+        · cases hsel
+    rw [← hbit 38 2 (by omega)]
+    exact hsel
+  simp only [h24, if_false] at hsel ⊢
+  by_cases h25 : t = 25
+  · simp only [h25, if_true] at hsel ⊢
+    have hl : selLen cls = 40 := by
+      injection hsel with hsel; subst hsel
+      split <;> split <;> decide
+    rw [hbitAt 38 (by omega), hbitAt 39 (by omega)]
+    exact hsel
+  simp only [h25, if_false] at hsel ⊢
+  by_cases h26 : t = 26
+  · simp only [h26, if_true] at hsel ⊢
+    have hl : selLen cls = 40 := by
+      injection hsel with hsel; subst hsel
+      split <;> split <;> decide
+    rw [hbitAt 38 (by omega), hbitAt 39 (by omega)]
+    exact hsel
+  simp only [h26, if_false] at hsel ⊢
+  exact hsel
+
+/-- the selected class determines how many bits were looked at -/
+theorem selLen_of_select (bits : Bits) (cls : String) (hsel : select bits = .ok cls) :
+    (toNat (bits.take 6) = 22 → selLen cls = 140) ∧
+    (toNat (bits.take 6) ∈ [24, 25, 26] → selLen cls = 40) := by
+  unfold select at hsel
+  generalize toNat (bits.take 6) = t at hsel ⊢
+  refine ⟨?_, ?_⟩
+  · intro h22
+    subst h22
+    simp only [show ¬ (22 = 0) by decide, if_false, if_true] at hsel
+    split at hsel <;> (injection hsel with hsel; subst hsel; decide)
+  · intro hm
+    simp only [List.mem_cons, List.mem_nil_iff, or_false] at hm
+    rcases hm with rfl | rfl | rfl
+    · simp only [show ¬ (24 = 0) by decide, show ¬ (24 = 22) by decide, if_false, if_true] at hsel
+      split at hsel
+      · injection hsel with hsel; subst hsel; decide
+      · split at hsel
+        · injection hsel with hsel; subst hsel; decide
+        · cases hsel
+    · simp only [show ¬ (25 = 0) by decide, show ¬ (25 = 22) by decide, show ¬ (25 = 24) by decide,
+        if_false, if_true] at hsel
+      injection hsel with hsel; subst hsel
+      split <;> split <;> decide
+    · simp only [show ¬ (26 = 0) by decide, show ¬ (26 = 22) by decide, show ¬ (26 = 24) by decide,
+        show ¬ (26 = 25) by decide, if_false, if_true] at hsel
+      injection hsel with hsel; subst hsel
+      split <;> split <;> decide
+
 /-- the encoder's fragment size keeps every message within nine fragments -/
 theorem maxlen_ok : 20 ≤ MAXLEN := by decide
 
-/-- a table of the source with the shape of a layout has the layout's total width -/
-theorem widthSum_of_shape (fs : List Field) (L : List LField)
-    (h : tableShape C08.E fs = layoutShape L) : widthSum fs = totalWidth L := by
-  have := congrArg (List.map fun p => p.2.1) h
-  simp only [tableShape, layoutShape, List.map_map, Function.comp_def] at this
-  simp only [widthSum, totalWidth, this]
-
-/-- **Round trip of every wire-representable message, through the whole NMEA path.**  Take any
-payload `bits0` of a supported layout `cls` (its own type and discriminator bits select `cls`), on a
-field boundary, in which no field is normalised by decoding, and let `m` be the decoded message —
-i.e. `m` ranges over all messages whose field values are wire-representable.  Encoding `m` with
+/-- **Round trip of every message that decoding can produce, through the whole NMEA path.**  Take any
+payload `bits0` of a supported layout `cls` (its own type and discriminator bits select `cls`; it is
+long enough to contain them) whose length ends on a field boundary or inside the variable-length
+tail, sub-character padding zero, and let `m` be the decoded message.  Encoding `m` with
 `encode_msg` (any admissible talker and channel) and decoding the produced sentences with `decode()`
-yields exactly `m`: same class/variant, every field equal. -/
-theorem C02_roundtrip_wire (cls : String) (L : List LField) (fs : List Field)
-    (hL : (cls, L) ∈ layouts) (hfs : Generated.classes.lookup cls = some fs)
-    (bits0 : Bits) (hsel : select bits0 = .ok cls) (hlen : bits0.length = totalWidth L)
-    (hpad : PadZero C08.E fs bits0) (hex : AllExact env C08.E C08.fromRot fs bits0)
-    (hr : ¬ RaggedTail C08.E fs bits0)
+yields exactly `m`: same class/variant, every field equal — also when decoding normalised some
+field of `bits0` (enum fallbacks, text padding, rate of turn) and for shorter forms.  The one
+exception is a variable-length text that decodes to the empty string (known findings F12/F13). -/
+theorem C02_roundtrip (cls : String) (fs : List Field)
+    (hfs : Generated.classes.lookup cls = some fs)
+    (bits0 : Bits) (hsel : select bits0 = .ok cls) (hmin : selLen cls ≤ bits0.length)
+    (hb : OnBoundary fs bits0.length) (hpad : PadZero C08.E fs bits0)
+    (hne : ¬ EmptyTextTail C08.E fs bits0)
     (talker chan : Bytes) (ht : talkerOk talker = true) (hc : chanOk chan = true) :
     ∃ kv sents, seqDecode env bits0 0 fs = .ok kv ∧
       encodeMsg env MAXLEN { cls := cls, fields := kv } talker chan = .ok sents ∧
       decodeArgs K env false sents = .ok { cls := cls, fields := kv } := by
-  -- the table has the layout's shape, hence its width
-  have hshape : tableShape C08.E fs = layoutShape L := by
-    have h := List.all_eq_true.mp C01.tables_match_layouts (cls, L) hL
-    simp only at h
-    rw [hfs] at h
-    exact eq_of_beq h
-  have hw : widthSum fs = totalWidth L := widthSum_of_shape fs L hshape
-  have hb : OnBoundary fs bits0.length :=
-    Or.inl ⟨fs.length, Nat.le_refl _, by rw [List.take_length, hlen, hw]⟩
-  obtain ⟨kv, hdec, henc⟩ := C08.C08_bit_exact cls fs hfs bits0 hb hpad hex hr
-  -- lengths
-  have hfin := List.all_eq_true.mp C01.layouts_len_fin (cls, L) hL
-  simp only [Bool.and_eq_true, decide_eq_true_eq, Bool.or_eq_true, Bool.not_eq_true',
-    Bool.or_eq_false_iff, beq_eq_false_iff_ne] at hfin
-  obtain ⟨h72, h22⟩ := hfin
-  have hdom := List.all_eq_true.mp C09.C09_domain (cls, fs) (lookup_mem _ _ _ hfs)
-  simp only [decide_eq_true_eq] at hdom
-  have hle : bits0.length ≤ 6 * 9 * MAXLEN := by
-    have := maxlen_ok
-    have h2 : bits0.length ≤ 1064 := by rw [hlen, ← hw]; exact hdom
+  obtain ⟨kv, bits', hdec, henc, hdec'⟩ := C08.C08_idempotent cls fs hfs bits0 hb hpad hne
+  -- the prefix that selects the class survives re-encoding
+  have hmem := lookup_mem _ _ _ hfs
+  have hpt := List.all_eq_true.mp prefix_tables (cls, fs) hmem
+  simp only [Bool.and_eq_true, beq_iff_eq, List.all_eq_true] at hpt
+  obtain ⟨hpre, hw⟩ := hpt
+  have hpfx := reencode_prefix env C08.E C08.fromRot C08.tables_ok C08.rot_tables_ok C08.enum_rt_ok
+    cls fs (C08.table_rt cls fs hfs) (selFields fs (selLen cls)) hpre bits0 (by rw [hw]; exact hmin)
+    kv bits' hdec henc
+  rw [hw] at hpfx
+  have hlen' : selLen cls ≤ bits'.length := by
+    have := congrArg List.length hpfx
+    simp only [List.length_take] at this
     omega
-  have hne : bits0 ≠ [] := by
-    intro h0; rw [h0] at hlen; simp at hlen; omega
+  have hge := selLen_ge cls
+  have hsel' : select bits' = .ok cls := select_congr bits0 bits' cls hsel hpfx.symm
+  -- lengths
+  have hdom := List.all_eq_true.mp C09.C09_domain (cls, fs) hmem
+  simp only [decide_eq_true_eq] at hdom
+  have hle : bits'.length ≤ 6 * 9 * MAXLEN := by
+    have := maxlen_ok
+    rw [toBitarray_eq_fold] at henc
+    have h2 := foldlM_encStep_length env _ fs [] bits' henc
+    simp only [List.length_nil, Nat.zero_add] at h2
+    have h3 : widthSum fs ≤ 1064 := hdom
+    omega
+  have hne' : bits' ≠ [] := by
+    intro h0; rw [h0] at hlen'; simp at hlen'; omega
   -- the encoder
-  have hmsg : msgToBits env { cls := cls, fields := kv } = .ok bits0 := by
+  have hmsg : msgToBits env { cls := cls, fields := kv } = .ok bits' := by
     unfold msgToBits
     have : env.classes.lookup cls = some fs := hfs
     simp only [this]
     exact henc
   have hlt : talker.length = 5 := C09.talker_length talker ht
   have hlc : chan.length = 1 := C09.chan_length chan hc
-  have hout : ∃ out, aisToNmea MAXLEN (encodeAscii6 bits0).1 talker chan (encodeAscii6 bits0).2 = .ok out := by
+  have hout : ∃ out, aisToNmea MAXLEN (encodeAscii6 bits').1 talker chan (encodeAscii6 bits').2 = .ok out := by
     unfold aisToNmea
     simp only [hlt, hlc, ne_eq, not_true_eq_false, if_false]
     exact ⟨_, rfl⟩
@@ -82,25 +211,26 @@ theorem C02_roundtrip_wire (cls : String) (L : List LField) (fs : List Field)
     unfold encodeMsg
     simp only [ht, hc, not_true_eq_false, if_false, hmsg, bind, Except.bind]
     exact hout
-  obtain ⟨s, hs, hsbits, hpay, _, hid⟩ := C09.C09_accepted bits0 talker chan ht hc hne hle out hout
+  obtain ⟨s, hs, hsbits, hpay, _, hid⟩ := C09.C09_accepted bits' talker chan ht hc hne' hle out hout
   refine ⟨kv, out, hdec, hencm, ?_⟩
   -- the decoder
   have hnotempty : s.payload.isEmpty = false := by
     rw [hpay]
-    have := (encodeAscii6_chars bits0).2
-    cases hp : (encodeAscii6 bits0).1 with
+    have := (encodeAscii6_chars bits').2
+    cases hp : (encodeAscii6 bits').1 with
     | nil => rw [hp] at this; simp at this; omega
     | cons _ _ => rfl
-  have hselect := C01.C01_select bits0 (by omega) (fun _ => by omega) (fun h => by
-    rcases h22 with h22 | h22
-    · rcases C01.select_22 bits0 cls h hsel with hc | hc
-      · exact absurd hc h22.1
-      · exact absurd hc h22.2
-    · omega)
-  have hdb : decodeBits env bits0 = .ok { cls := cls, fields := kv } := by
-    rw [C01.decodeBits_eq, hselect, hsel]
+  have hselect := C01.C01_select bits' (by omega)
+    (fun h => by
+      have : selLen cls = 40 := (selLen_of_select bits' cls hsel').2 h
+      omega)
+    (fun h => by
+      have : selLen cls = 140 := (selLen_of_select bits' cls hsel').1 h
+      omega)
+  have hdb : decodeBits env bits' = .ok { cls := cls, fields := kv } := by
+    rw [C01.decodeBits_eq, hselect, hsel']
     have : Generated.env.classes.lookup cls = some fs := hfs
-    simp only [bind, Except.bind, this, hdec]
+    simp only [bind, Except.bind, this, hdec']
   unfold decodeArgs
   rw [hs]
   simp only [bind, Except.bind, decodeSentence, hnotempty, Bool.false_eq_true, if_false, hid, hsbits]
@@ -174,16 +304,31 @@ theorem C02_finding_type26_short_data :
         | .error _ => false)
      | .error _ => false) = true := by decide +kernel
 
-/-- non-vacuity: the hypotheses of `C02_roundtrip_wire` are satisfiable (an all-zero type-1 payload
-apart from the type bits) -/
-example : (match select (ofNat 6 1 ++ ofNat 162 0) with
-      | .ok c => c == "MessageType1"
+/-- non-vacuity: a 72-bit type-8 payload (two octets of binary data — a shorter form) meets the
+hypotheses of `C02_roundtrip`: it selects `MessageType8`, contains the bits that select the class,
+ends inside the variable-length tail, and the table has no text field -/
+example : (match select (ofNat 6 8 ++ ofNat 66 12345) with
+      | .ok c => c == "MessageType8"
       | .error _ => false) = true ∧
-    (ofNat 6 1 ++ ofNat 162 0).length = totalWidth L_MessageType1 := by
+    selLen "MessageType8" ≤ (ofNat 6 8 ++ ofNat 66 12345).length ∧
+    OnBoundary Generated.T_MessageType8 (ofNat 6 8 ++ ofNat 66 12345).length := by
+  refine ⟨by decide +kernel, by decide +kernel, Or.inr ⟨_, rfl, rfl, ?_, ?_⟩⟩ <;> decide +kernel
+
+/-- … and so does a full-length (360-bit) type-21 payload, whose re-encoding is four bits shorter
+(finding F27): the round trip of the *message* is unaffected -/
+example : (match select (ofNat 6 21 ++ ofNat 354 0) with
+      | .ok c => c == "MessageType21"
+      | .error _ => false) = true ∧
+    selLen "MessageType21" ≤ (ofNat 6 21 ++ ofNat 354 0).length ∧
+    OnBoundary Generated.T_MessageType21 (ofNat 6 21 ++ ofNat 354 0).length := by
+  refine ⟨by decide +kernel, by decide +kernel, Or.inl ⟨Generated.T_MessageType21.length, Nat.le_refl _, ?_⟩⟩
   decide +kernel
 
+#print axioms prefix_tables
+#print axioms select_congr
+#print axioms selLen_of_select
 #print axioms maxlen_ok
-#print axioms C02_roundtrip_wire
+#print axioms C02_roundtrip
 #print axioms C02_encode_dict
 #print axioms C02_create
 #print axioms C02_quantisation_positions
